@@ -389,7 +389,8 @@ def inline_function(idx: PyIndex, fi: FuncInfo, depth: int = 2, keep=None) -> as
             break
     ast.fix_missing_locations(fn)
     # apply the canonical forms again (helper bodies were already canonical, but idioms may now span the seam)
-    from .normalise import Canon
+    from .normalise import Canon, _Subst
+    fn = _Subst({}).visit(fn)           # getattr(x, 'const') -> x.const, applied lambdas
     fn = Canon().visit(fn)
     ast.fix_missing_locations(fn)
     return fn
